@@ -26,6 +26,7 @@ Definition P_div0 : N := 104.    (* attempt to divide by zero / remainder with a
 Definition P_shift : N := 105.   (* attempt to shift left/right with overflow *)
 Definition P_index : N := 106.   (* index out of bounds *)
 Definition P_slice : N := 107.   (* slice index out of range *)
+Definition P_match : N := 108.   (* a `match` on a C-like enum value that is none of its variants (cannot happen for a valid value) *)
 Definition P_assert (line : N) : N := 1000 + line.
 
 (** [bits]-wide unsigned arithmetic; [trap] = overflow checks on. *)
@@ -81,4 +82,4 @@ Definition ptr_eqb (p q : option N) : bool :=
 
 (** f64 as its bit pattern: NaN = exponent all ones and a non-zero mantissa *)
 Definition f64_is_nan (b : N) : bool :=
-  (N.land (N.shiftr b 52) 0x7ff =? 0x7ff) && negb (N.land b (N.ones 52) =? 0).
+  ((b / 2 ^ 52) mod 2 ^ 11 =? 2047) && negb (b mod 2 ^ 52 =? 0).
